@@ -130,19 +130,20 @@ type c11Client struct {
 }
 
 type c11SessCase struct {
-	out   *vh.Out
-	cfg   vlim.Cfg
-	def   bool
-	g     *limits.Group
-	endp  *Endpoint
-	chk   *c11Check
-	tgt   *testutils.Target
-	port  string
-	cls   map[int]*c11Client
-	ops   []string
-	obs   []string
-	slow  int
-	broke bool
+	out     *vh.Out
+	cfg     vlim.Cfg
+	def     bool
+	g       *limits.Group
+	endp    *Endpoint
+	chk     *c11Check
+	tgt     *testutils.Target
+	port    string
+	cls     map[int]*c11Client
+	ops     []string
+	obs     []string
+	slow    int
+	maxSlow int
+	broke   bool
 }
 
 func (c *c11SessCase) opLine() string {
@@ -295,7 +296,7 @@ func (c *c11SessCase) exec(op string) bool {
 		}
 		c.waitSessions(before - 1)
 		delete(c.cls, sid)
-		c.record("q." + f[1])
+		c.record(op)
 	default:
 		return false
 	}
@@ -347,7 +348,10 @@ func c11SessRun(out *vh.Out, t *testing.T, cfg vlim.Cfg, def bool, r *vh.Rng, fi
 	c11PortMu.Unlock()
 	defer endp.Close()
 	endp.limits = g
-	c := &c11SessCase{out: out, cfg: cfg, def: def, g: g, endp: endp, chk: chk, tgt: tgt, port: port, cls: map[int]*c11Client{}}
+	c := &c11SessCase{out: out, cfg: cfg, def: def, g: g, endp: endp, chk: chk, tgt: tgt, port: port, cls: map[int]*c11Client{}, maxSlow: 1}
+	if r.Chance(20) {
+		c.maxSlow = 2
+	}
 	defB := "0"
 	if def {
 		defB = "1"
@@ -383,8 +387,8 @@ func c11SessRun(out *vh.Out, t *testing.T, cfg vlim.Cfg, def bool, r *vh.Rng, fi
 			x := r.Intn(100)
 			var op string
 			switch {
-			case !k.inTxn || x < 6: // MAIL (6%: nested MAIL inside a transaction)
-				if c.slow >= 2 && !k.inTxn {
+			case !k.inTxn || x < 12: // MAIL (12%: nested MAIL inside a transaction)
+				if c.slow >= c.maxSlow && !k.inTxn {
 					op = fmt.Sprintf("q.%d", sid)
 					break
 				}
@@ -395,25 +399,25 @@ func c11SessRun(out *vh.Out, t *testing.T, cfg vlim.Cfg, def bool, r *vh.Rng, fi
 					so = "0"
 				}
 				op = fmt.Sprintf("m.%d.%d.%s.%s", sid, raw, clean, so)
-			case x < 45:
+			case x < 48:
 				so := "1"
 				if r.Chance(15) {
 					so = "0"
 				}
-				if c.slow >= 2 && k.rcptOK == 0 && def {
+				if c.slow >= c.maxSlow && k.rcptOK == 0 && def {
 					op = fmt.Sprintf("z.%d", sid)
 					break
 				}
 				op = fmt.Sprintf("c.%d.%s", sid, so)
-			case x < 70 && k.rcptOK > 0:
+			case x < 75 && k.rcptOK > 0:
 				po := "1"
 				if r.Chance(25) {
 					po = "0"
 				}
 				op = fmt.Sprintf("d.%d.%s", sid, po)
-			case x < 82:
+			case x < 84:
 				op = fmt.Sprintf("z.%d", sid)
-			case x < 91:
+			case x < 92:
 				op = fmt.Sprintf("q.%d", sid)
 			default:
 				op = fmt.Sprintf("q.%d.drop", sid)
@@ -503,11 +507,14 @@ func TestVerifC11Session(t *testing.T) {
 		}
 		return
 	}
-	n := vh.N(400) / 8
+	n := vh.N(400) / 3
 	if n < 8 {
 		n = 8
 	}
-	sem := make(chan struct{}, 24)
+	if n > 1200 {
+		n = 1200
+	}
+	sem := make(chan struct{}, 48)
 	var wg sync.WaitGroup
 	for i := 0; i < n; i++ {
 		wg.Add(1)
